@@ -14,6 +14,7 @@ import (
 type PrintOpts struct {
 	Suffix        string // appended to every top-level name (types, cases, functions): many programs in one Go package
 	MainName      string // name of the entry function ("main" when empty)
+	Tiny          bool   // the layout tinyfo needs: let right-hand sides start on the let line, slice literals in parentheses
 	OwnPkgInfo    bool   // emit package_info blocks for the library functions used (tinyfo cannot read pkg_all.foi)
 	DropRetAnnot  bool   // drop the result annotation of non-recursive functions (inference recovers it; used by C02)
 	QualifyRecord bool   // write record literals as {Rec.f = …}
@@ -245,6 +246,10 @@ func (w *foPrinter) nl(indent int) {
 	w.col = indent
 }
 
+// field names get the suffix too: a transpiler process fed several programs resolves a record
+// literal by its field names across all of them
+func (w *foPrinter) field(x string) string { return x + w.o.Suffix }
+
 func (w *foPrinter) name(x string) string {
 	if w.o.Suffix != "" && w.top[x] {
 		return x + w.o.Suffix
@@ -322,7 +327,7 @@ func (w *foPrinter) decl(d *Decl) {
 			if i > 0 {
 				w.s("; ")
 			}
-			w.s(f.Name + ": " + w.typ(f.T))
+			w.s(w.field(f.Name) + ": " + w.typ(f.T))
 		}
 		w.s("}\n")
 	case DUnion:
@@ -365,7 +370,7 @@ func (w *foPrinter) stmt(s *Stmt, ind int) {
 	switch s.K {
 	case SLet:
 		w.s("let " + s.Name + " =")
-		if multiLineKind(s.E) {
+		if multiLineKind(s.E) && !w.o.Tiny {
 			w.nl(ind + 2)
 		} else {
 			w.s(" ")
@@ -449,7 +454,7 @@ func (w *foPrinter) atom(e *Expr) {
 			return
 		}
 	case ESlice:
-		if len(e.Args) > 0 {
+		if len(e.Args) > 0 && !w.o.Tiny {
 			w.top_(e)
 			return
 		}
@@ -460,7 +465,24 @@ func (w *foPrinter) atom(e *Expr) {
 		}
 	}
 	w.s("(")
-	w.top_(e)
+	if w.o.Tiny && e.K == EIf {
+		// one line: tinyfo cannot end a multi-line block at a closing parenthesis
+		br := func(x *Expr) {
+			if multiLineKind(x) {
+				w.atom(x)
+			} else {
+				w.top_(x)
+			}
+		}
+		w.s("if ")
+		br(e.Args[0])
+		w.s(" then ")
+		br(e.Blocks[0].E)
+		w.s(" else ")
+		br(e.Blocks[1].E)
+	} else {
+		w.top_(e)
+	}
 	w.s(")")
 }
 
@@ -555,13 +577,13 @@ func (w *foPrinter) top_(e *Expr) {
 			if i == 0 && w.o.QualifyRecord {
 				w.s(w.name(e.Name) + ".")
 			}
-			w.s(e.Fields[i] + " = ")
+			w.s(w.field(e.Fields[i]) + " = ")
 			w.atom(a)
 		}
 		w.s("}")
 	case EField:
 		w.top_(e.Args[0])
-		w.s("." + e.Name)
+		w.s("." + w.field(e.Name))
 	case ECtor:
 		w.s(w.name(e.Name))
 		w.args(e.Args)
